@@ -34,10 +34,10 @@ func vSameStrs(a, b []string) bool {
 func H_C20_x2j() {
 	k := vNondetString(1, 1, "ab")
 	v := vNondetString(1, 1, "xy")
-	x := []byte("<r " + k + "=\"1\"><" + k + ">" + v + "</" + k + "><b>1</b><b>2</b><c><" + k + ">z</" + k + "></c></r>")
+	x := []byte("<r " + k + "=\"1\">\n <" + k + ">" + v + "</" + k + "><b>1</b> <b>2</b><c><" + k + ">z</" + k + "></c><z></z></r>")
 	core, cerr := NewMapXml(x)
 	vAssert(cerr == nil, "x2j: the input decodes")
-	key := vNondetString(1, 1, "abc")
+	key := vNondetString(1, 1, "abcq")
 	safe := vChoose(2) == 1
 	switch vChoose(11) {
 	case 0:
